@@ -92,6 +92,40 @@ func (x *c14) ckiThresholds() {
 		r.Undecided(c14R3, c14PkgKey+".(*CustomKeyInformation).FromBytes: input parameter", p.Rel(from.Pos()), "no []byte parameter")
 		return
 	}
+	// COMPLETENESS: the recogniser's tables list the reads, guards and appends it
+	// FOUND in FromBytes/ToBytes themselves. When the interpretation does not
+	// complete and the blob or the receiver flows into an in-module helper, a
+	// closure or a function value (a predicate method, a cursor type …), those
+	// tables are partial and what they "lack" is not an observation: the
+	// recogniser's R3 verdicts are then recorded as NOT DECIDED.
+	markR3 := len(r.Obls)
+	var semR3 *c14CkiSem
+	defer func() {
+		if semR3 == nil || semR3.done {
+			return
+		}
+		esc := c14ValueEscapes(blob, p.InModule)
+		for _, q := range []*ssa.Parameter{from.Params[0], to.Params[0]} {
+			if esc == "" {
+				esc = c14ValueEscapes(q, p.InModule)
+			}
+		}
+		if esc == "" {
+			return // the recogniser saw every use of the blob and of the receiver
+		}
+		na := c14Na("%s", semR3.why)
+		if na.hard() {
+			return
+		}
+		for _, o := range r.Obls[markR3:] {
+			if o.Rule != c14R3 || o.Status == report.Discharged {
+				continue
+			}
+			o.Reason = c14NotDecided(r, o.Rule, o.Construct, "the tables are read off FromBytes/ToBytes themselves, but the blob or the receiver flows into "+esc+"; its verdict was: "+o.Reason, na)
+			o.Status = report.Discharged
+			o.StatusStr = o.Status.String()
+		}
+	}()
 	fiD := x.w.Info(from)
 	recvD := from.Params[0]
 	var dec []c14Use
@@ -313,6 +347,7 @@ func (x *c14) ckiThresholds() {
 	// behaviour on every size 0..40 and, when it completes, is what is judged:
 	// it does not depend on how the guards and copies are spelled.
 	sem := x.semCki(from, to)
+	semR3 = sem
 	r.Extra["cki_tables_from"] = "shape recogniser (reads at constant offsets, E1 guards, append chains)"
 	if sem.done {
 		var sdt, set []string
@@ -588,6 +623,17 @@ func (x *c14) rsaBlob() {
 		r.Undecided(c14R4, nameF+": input parameter", posF, "no []byte parameter")
 		return
 	}
+	// the decoder clauses below are emitted by the shape recogniser and then
+	// arbitrated against the lane interpretation of FromBytes (c14_rsadec.go)
+	markDec := len(r.Obls)
+	semDec := x.semRsaDecoder(from)
+	decCons := map[string]string{}
+	defer func() {
+		for clause, cons := range decCons {
+			cons := cons
+			x.arbitrate(markDec, func(o *report.Obligation) bool { return o.Rule == c14R4 && o.Construct == cons }, semDec[clause])
+		}
+	}()
 	fi := x.w.Info(from)
 	// headerSlot: v is (a conversion of) binary.LittleEndian.Uint32(value[k:k+4]) → k
 	var headerSlot func(v ssa.Value) (int64, string, bool)
@@ -668,6 +714,7 @@ func (x *c14) rsaBlob() {
 	}
 	// magic
 	cMag := nameF + `: bytes 0..3 are compared with "RSA1"`
+	decCons["magic"] = cMag
 	okMag := false
 	for _, b := range from.Blocks {
 		for _, instr := range b.Instrs {
@@ -706,24 +753,27 @@ func (x *c14) rsaBlob() {
 	if okMag {
 		r.OK(c14R4, cMag, posF, "mismatch leads to an error return")
 	} else {
-		r.Fail(c14R4, cMag, posF, `no test of value[0:4] against "RSA1" that rejects other blob types was found`)
+		// pattern not found: says nothing about the code (the lane interpretation decides)
+		r.Undecided(c14R4, cMag, posF, `no test of value[0:4] against "RSA1" that rejects other blob types was found`)
 	}
 	// KeySize
 	cKS := nameF + ": KeySize == 4 bytes LE at offset 4"
+	decCons["KeySize"] = cKS
 	if a, ok := byField["KeySize"]; ok && a.Kind == "fixed" && a.Width == 4 && a.Order == "LE" && a.Off == "4" {
 		r.OK(c14R4, cKS, posF, a.String())
 	} else if ok {
 		r.Fail(c14R4, cKS, posF, "decoded as "+a.String()+", ToBytes emits it as 4 bytes LE at offset 4")
 	} else {
-		r.Fail(c14R4, cKS, posF, "KeySize is never decoded from the blob")
+		r.Undecided(c14R4, cKS, posF, "internal/codec finds no read of the blob that feeds KeySize")
 	}
 	// payloads
 	prev := []int64{8}
 	for i, f := range []string{"Modulus", "Prime1", "Prime2"} {
 		cons := fmt.Sprintf("%s: %s == value[24+Σpreceding sizes : +%s] with the size read LE from offset %d", nameF, f, []string{"cbModulus", "cbPrime1", "cbPrime2"}[i], 12+4*i)
+		decCons[f] = cons
 		a, ok := byField[f]
 		if !ok || a.Kind != "bytes" {
-			r.Fail(c14R4, cons, posF, f+" is not decoded as a slice of the input")
+			r.Undecided(c14R4, cons, posF, "internal/codec does not see "+f+" being assigned a slice of the input")
 			prev = append(prev, int64(12+4*i))
 			continue
 		}
@@ -741,6 +791,7 @@ func (x *c14) rsaBlob() {
 		prev = append(prev, int64(12+4*i))
 	}
 	// exponent: structural part
+	decCons["Exponent"] = c14RsaExpCons()
 	x.rsaExponent(from, value, fi, headerSlot)
 	// semantic cross-check on concrete shapes through the lane interpreter
 	x.rsaRoundTrip(to, from)
@@ -830,7 +881,8 @@ func (x *c14) expLenSlot(to *ssa.Function) (bool, string) {
 func (x *c14) rsaExponent(from *ssa.Function, value *ssa.Parameter, fi *prove.FuncInfo, headerSlot func(ssa.Value) (int64, string, bool)) {
 	p, r := x.P, x.R
 	name := c14PkgCrypto + ".(*RSAKeyMaterial).FromBytes"
-	cons := name + ": Exponent accumulates value[24+i] big-endian for i < cbPublicExp (LE at offset 8)"
+	cons := c14RsaExpCons()
+	_ = name
 	st := c14Deref(from.Params[0].Type()).Underlying().(*types.Struct)
 	for _, b := range from.Blocks {
 		for _, instr := range b.Instrs {
@@ -855,7 +907,7 @@ func (x *c14) rsaExponent(from *ssa.Function, value *ssa.Parameter, fi *prove.Fu
 				}
 			}
 			if shl == nil {
-				r.Fail(c14R4, cons, p.Rel(s.Pos()), "the exponent is not accumulated as (Exponent << 8) | byte: it is not read big-endian")
+				r.Undecided(c14R4, cons, p.Rel(s.Pos()), "the store into Exponent is not of the form (Exponent << 8) | byte")
 				return
 			}
 			k, isK := c14ConstInt(shl.Y)
@@ -877,7 +929,7 @@ func (x *c14) rsaExponent(from *ssa.Function, value *ssa.Parameter, fi *prove.Fu
 				ia, _ = ld.X.(*ssa.IndexAddr)
 			}
 			if !isK || k != 8 || !okAcc || ia == nil || ia.X != ssa.Value(value) {
-				r.Fail(c14R4, cons, p.Rel(s.Pos()), "the exponent is not accumulated as (Exponent << 8) | value[…]")
+				r.Undecided(c14R4, cons, p.Rel(s.Pos()), "the store into Exponent is not of the form (Exponent << 8) | value[…]")
 				return
 			}
 			// index = 24 + i, loop bound = header word at 8
@@ -937,7 +989,7 @@ func (x *c14) rsaExponent(from *ssa.Function, value *ssa.Parameter, fi *prove.Fu
 			return
 		}
 	}
-	r.Fail(c14R4, cons, p.Rel(from.Pos()), "no accumulation of the exponent from the input found")
+	r.Undecided(c14R4, cons, p.Rel(from.Pos()), "no accumulation of the exponent from the input found")
 }
 
 // rsaRoundTrip interprets FromBytes(ToBytes(k)) over the lane domain for key
@@ -985,12 +1037,12 @@ func (x *c14) rsaRoundTrip(to, from *ssa.Function) {
 		}
 		blob, err := in.Call(to, absint.Ptr{N: recv})
 		if err != nil {
-			r.Undecided(c14R4, cons, p.Rel(to.Pos()), "ToBytes: abstract interpretation aborted: "+err.Error())
+			x.settle(c14R4, cons, p.Rel(to.Pos()), report.Undecided, "the round trip could not be interpreted", c14Na("ToBytes: %s", err.Error()))
 			continue
 		}
 		bs, ok := blob.(absint.Slice)
 		if !ok || bs.Nil {
-			r.Undecided(c14R4, cons, p.Rel(to.Pos()), "ToBytes does not return a byte slice of known content")
+			x.settle(c14R4, cons, p.Rel(to.Pos()), report.Undecided, "the round trip could not be interpreted", c14Na("ToBytes does not return a byte slice of known content"))
 			continue
 		}
 		// a private copy of the bytes so that the decoder cannot alias encoder state
@@ -1001,7 +1053,15 @@ func (x *c14) rsaRoundTrip(to, from *ssa.Function) {
 		back := in.SymNode(nt, "stale", map[string]int{})
 		res, err := in.Call(from, absint.Ptr{N: back}, absint.Slice{Arr: out, Lo: 0, Hi: len(out.Kids), Cap: len(out.Kids)})
 		if err != nil {
-			r.Undecided(c14R4, cons, p.Rel(from.Pos()), "FromBytes: abstract interpretation aborted: "+err.Error())
+			// every length in the blob ToBytes produced is a constant: an abort
+			// because the code would panic, or because an index is computed from
+			// symbolic bytes, is an observation; any other abort decides nothing
+			why := err.Error()
+			if len(in.Unknown) == 0 && (strings.Contains(why, "would panic") || strings.Contains(why, "is not determined by the lanes")) {
+				r.Fail(c14R4, cons, p.Rel(from.Pos()), "FromBytes on the blob ToBytes produced: "+why)
+			} else {
+				x.settle(c14R4, cons, p.Rel(from.Pos()), report.Undecided, "the round trip could not be interpreted", c14Na("FromBytes: %s", why))
+			}
 			continue
 		}
 		if isNil, known := c13IfaceNil(res); !known || !isNil {
@@ -1108,7 +1168,7 @@ hashDone:
 	}
 	isHash := func(v ssa.Value) bool { return hash != nil && v == hash }
 	if hash == nil {
-		r.Fail(c14R5, cHash, pos, "CheckIntegrity does not call kc.ComputeKeyHash() exactly once on its own receiver")
+		r.Undecided(c14R5, cHash, pos, "no single direct call kc.ComputeKeyHash() on the receiver found in CheckIntegrity itself")
 		r.Undecided(c14R5, cLen, pos, "no hash value")
 		r.Undecided(c14R5, cAll, pos, "no hash value")
 		r.Undecided(c14R5, cRet, pos, "no hash value")
@@ -1297,20 +1357,68 @@ hashDone:
 	case len(bad) > 0:
 		r.Undecided(c14R5, cRet, pos, strings.Join(bad, "; "))
 	case nTrue == 0:
-		r.Fail(c14R5, cRet, pos, "CheckIntegrity can never return true")
+		r.Undecided(c14R5, cRet, pos, "no `return true` and no whole-slice comparison result found")
 	default:
 		r.OK(c14R5, cRet, pos, fmt.Sprintf("%d positive result(s)", nTrue))
 	}
+	// COMPLETENESS: when the hash (or KeyHash) is handed to an in-module helper,
+	// a closure or a function value, the comparison may happen there; a missing
+	// dominating edge in THIS function is then not an observation
+	escaped := c14ValueEscapes(hash, p.InModule)
+	for _, b := range fn.Blocks {
+		for _, instr := range b.Instrs {
+			if ld, ok := instr.(*ssa.UnOp); ok && isKH(ld) && c14ValueEscapes(ld, p.InModule) != "" && escaped == "" {
+				escaped = c14ValueEscapes(ld, p.InModule)
+			}
+		}
+	}
 	if okLen {
 		r.OK(c14R5, cLen, pos, "every `return true` is dominated by the equal-length edge (or is a whole-slice comparison)")
+	} else if escaped != "" {
+		r.Undecided(c14R5, cLen, pos, "no dominating len(hash) == len(kc.KeyHash) edge in CheckIntegrity itself, but the compared bytes flow into "+escaped+", which the recogniser does not enter")
 	} else {
 		r.Fail(c14R5, cLen, pos, "a `return true` is reachable without len(hash) == len(kc.KeyHash): a truncated or empty KeyHash passes (or the byte loop indexes out of range)")
 	}
 	if okAll {
 		r.OK(c14R5, cAll, pos, "every `return true` is dominated by the exit of the loop that leaves with false on the first differing byte")
+	} else if escaped != "" {
+		r.Undecided(c14R5, cAll, pos, "no full comparison loop in CheckIntegrity itself ("+loopWhy+"), but the compared bytes flow into "+escaped+", which the recogniser does not enter")
 	} else {
 		r.Fail(c14R5, cAll, pos, "a `return true` is reachable without every byte of the hash having been compared ("+loopWhy+"): tampered entries can pass the integrity check")
 	}
+}
+
+// c14ValueEscapes: v is handed to an in-module callee, bound by a closure,
+// stored, or passed to a dynamic callee — code the shape recognisers do not
+// follow. It returns a description of the first such use ("" = none).
+func c14ValueEscapes(v ssa.Value, inModule func(*ssa.Function) bool) string {
+	if v == nil || v.Referrers() == nil {
+		return ""
+	}
+	for _, rr := range *v.Referrers() {
+		switch y := rr.(type) {
+		case *ssa.Call:
+			if _, isB := y.Common().Value.(*ssa.Builtin); isB {
+				continue
+			}
+			f := y.Common().StaticCallee()
+			if f == nil {
+				return "a dynamic call"
+			}
+			if inModule(f) {
+				return f.Name()
+			}
+		case *ssa.MakeClosure:
+			return "a closure"
+		case *ssa.Store:
+			if y.Val == v {
+				return "a variable captured or stored"
+			}
+		case *ssa.MakeInterface:
+			return "an interface value"
+		}
+	}
+	return ""
 }
 
 func c14ReturnsBool(b *ssa.BasicBlock, want bool) bool {
